@@ -1,9 +1,90 @@
 import Drivers.Proto
-/-! Model driver for property C07 (stub: no model operations registered yet). -/
-open Lean Proto
+import St4sd.Model.Instance
+/-!
+Model driver for property C07.
+
+Encoding: a template is a list of integers: `c ≥ 0` is the character with code `c`, `-(v+1)` is a reference to
+variable `v`.  A dict is a list of `[key, template]`; a layer `{"glob": dict, "stages": [[s, dict], …]}`;
+a component `{"stage","name","isDoc","opts","vars","ovr":[{"plat","opts","vars"}]}`;
+a description `{"vars": [[plat, layer]], "bps": [[plat, layer]], "comps": [...]}`.
+-/
+open Lean Proto St4sd.Instance
+
+def decSeg (i : Int) : Seg := if i < 0 then .ref (-(i + 1)).toNat else .ch i.toNat
+def encSeg : Seg → Json
+  | .ch c => jnat c
+  | .ref v => jint (-(Int.ofNat v) - 1)
+
+def decTmpl (j : Json) : Except String Tmpl := do
+  let a ← j.getArr?
+  let l ← a.toList.mapM (·.getInt?)
+  return l.map decSeg
+def encTmpl (t : Tmpl) : Json := jarr (t.map encSeg)
+
+def decDict (j : Json) : Except String Dict := do
+  let a ← j.getArr?
+  a.toList.mapM fun e => do
+    let p ← e.getArr?
+    if p.size != 2 then throw "dict entry"
+    return ((← p[0]!.getNat?), (← decTmpl p[1]!))
+def encDict (d : Dict) : Json := jarr (d.map fun e => jarr [jnat e.1, encTmpl e.2])
+
+def decLayer (j : Json) : Except String Layer := do
+  let g ← decDict (← j.getObjVal? "glob")
+  let st ← (← getArr j "stages").mapM fun e => do
+    let p ← e.getArr?
+    if p.size != 2 then throw "stage entry"
+    return ((← p[0]!.getNat?), (← decDict p[1]!))
+  return ⟨g, st⟩
+def encLayer (l : Layer) : Json :=
+  jobj [("glob", encDict l.glob), ("stages", jarr (l.stages.map fun e => jarr [jnat e.1, encDict e.2]))]
+
+def decLayers (j : Json) (k : String) : Except String (List (Nat × Layer)) := do
+  (← getArr j k).mapM fun e => do
+    let p ← e.getArr?
+    if p.size != 2 then throw "layer entry"
+    return ((← p[0]!.getNat?), (← decLayer p[1]!))
+def encLayers (ls : List (Nat × Layer)) : Json := jarr (ls.map fun e => jarr [jnat e.1, encLayer e.2])
+
+def decComp (j : Json) : Except String Comp := do
+  let ovr ← (← getArr j "ovr").mapM fun o => do
+    return (⟨(← getNat o "plat"), (← decDict (← o.getObjVal? "opts")), (← decDict (← o.getObjVal? "vars"))⟩ : Ovr)
+  return { stage := (← getNat j "stage"), name := (← getNat j "name"), isDoc := (← getBool j "isDoc"),
+           opts := (← decDict (← j.getObjVal? "opts")), vars := (← decDict (← j.getObjVal? "vars")), ovr := ovr }
+def encComp (c : Comp) : Json :=
+  jobj [("stage", jnat c.stage), ("name", jnat c.name), ("isDoc", jbool c.isDoc), ("opts", encDict c.opts),
+        ("vars", encDict c.vars),
+        ("ovr", jarr (c.ovr.map fun o => jobj [("plat", jnat o.plat), ("opts", encDict o.opts), ("vars", encDict o.vars)]))]
+
+def decDoc (j : Json) : Except String Doc := do
+  return { vars := (← decLayers j "vars"), bps := (← decLayers j "bps"), comps := (← (← getArr j "comps").mapM decComp) }
+def encDoc (d : Doc) : Json :=
+  jobj [("vars", encLayers d.vars), ("bps", encLayers d.bps), ("comps", jarr (d.comps.map encComp))]
+
+def decPatch (j : Json) : Except String Patch := do
+  return { stage := (← getNat j "stage"), name := (← getNat j "name"), isVar := (← getBool j "isVar"),
+           key := (← getNat j "key"), value := (← decTmpl (← j.getObjVal? "value")) }
+
+def encResolved (r : Resolved) : Json :=
+  jobj [("stage", jnat r.stage), ("name", jnat r.name), ("opts", encDict r.opts), ("vars", encDict r.vars)]
 
 def handle (j : Json) : Except String Json := do
   let op ← getStr j "op"
-  throw s!"unknown op {op}"
+  match op with
+  | "cycle" =>
+    -- one experiment: store, reload, store again; configurations before and after
+    let N ← getNat j "N"
+    let P ← getNat j "P"
+    let doc ← decDoc (← j.getObjVal? "doc")
+    let patches ← (← getArr j "patches").mapM decPatch
+    let E : Exp := { doc := doc, plat := P, patches := patches }
+    let E' := reload N E
+    return jobj [
+      ("resolves", jbool (resolves N doc P)),
+      ("stored", encDoc (store N E)),
+      ("stored_again", encDoc (store N E')),
+      ("before", jarr ((runningConfig N E).map encResolved)),
+      ("after", jarr ((runningConfig N E').map encResolved))]
+  | _ => throw s!"unknown op {op}"
 
 def main : IO Unit := serve handle
